@@ -74,8 +74,8 @@ theorem wConnLine_names (rc : ReqCtx) (g : GoResp) :
     rw [hm, lit_connection]
   · intro m hm; simp at hm
 
-theorem wLenFields_names (g : GoResp) :
-    ∀ m ∈ (wLenFields g).map (·.1), m = Name.transferEncoding ∨ m = Name.trailer ∨ m = Name.contentLength := by
+theorem wLenFields_names (rc : ReqCtx) (g : GoResp) :
+    ∀ m ∈ (wLenFields rc g).map (·.1), m = Name.transferEncoding ∨ m = Name.trailer ∨ m = Name.contentLength := by
   unfold wLenFields
   intro m hm
   split at hm
@@ -91,6 +91,14 @@ theorem wLenFields_names (g : GoResp) :
     · simp only [List.map_cons, List.map_nil, List.mem_singleton] at hm
       exact Or.inr (Or.inr (by rw [hm, lit_content_length]))
     · simp at hm
+
+theorem hoTrailerLine_names (g : GoResp) : ∀ m ∈ (hoTrailerLine g).map (·.1), m = Name.trailer := by
+  unfold hoTrailerLine
+  intro m hm
+  split at hm
+  · simp at hm
+  · simp only [List.map_cons, List.map_nil, List.mem_singleton] at hm
+    rw [hm, lit_trailer]
 
 theorem managed_of_own_name {m : Bytes}
     (h : m = Name.connection ∨ m = Name.transferEncoding ∨ m = Name.trailer ∨ m = Name.contentLength) :
@@ -118,21 +126,23 @@ variable {rc : ReqCtx} {g : GoResp}
 
 /-- values the head writer lists under a token name -/
 theorem valsOf_writeHO (hc : CanonKeys (pipeHeader rc g)) (hn : NodupKeys (pipeHeader rc g)) {n : Bytes}
-    (ht : n.all isTokenByte = true) :
+    (ht : n.all isTokenByte = true) (htr : lower n ≠ Name.trailer) :
     valsOf (writeHO rc g).fields (lower n) = ((pipeHeader rc g).lookup (canonicalKey n)).getD [] := by
-  show valsOf (mergeFields (lowerFields (pipeHeader rc g))) (lower n) = _
-  rw [valsOf_mergeFields, valsOf_lowerFields hc hn ht]
+  show valsOf (mergeFields (lowerFields (pipeHeader rc g) ++ hoTrailerLine g)) (lower n) = _
+  have hT : valsOf (hoTrailerLine g) (lower n) = [] :=
+    valsOf_eq_nil_of_not_mem fun h => htr (hoTrailerLine_names g _ h)
+  rw [valsOf_mergeFields, valsOf_append, hT, List.append_nil, valsOf_lowerFields hc hn ht]
 
 /-- values `Response.Write` lists under a token name it does not manage -/
 theorem valsOf_writeFull (hc : CanonKeys (pipeHeader rc g)) (hn : NodupKeys (pipeHeader rc g)) {n : Bytes}
     (ht : n.all isTokenByte = true) (hm : lower n ∉ managedNames) :
     valsOf (writeFull rc g).fields (lower n) = ((pipeHeader rc g).lookup (canonicalKey n)).getD [] := by
-  show valsOf (mergeFields (wConnLine rc g ++ wLenFields g ++ wRest rc g)) (lower n) = _
+  show valsOf (mergeFields (wConnLine rc g ++ wLenFields rc g ++ wRest rc g)) (lower n) = _
   rw [valsOf_mergeFields, valsOf_append, valsOf_append]
   have hA : valsOf (wConnLine rc g) (lower n) = [] :=
     valsOf_eq_nil_of_not_mem fun h => hm (managed_of_own_name (Or.inl (wConnLine_names rc g _ h)))
-  have hB : valsOf (wLenFields g) (lower n) = [] :=
-    valsOf_eq_nil_of_not_mem fun h => hm (managed_of_own_name (Or.inr (wLenFields_names g _ h)))
+  have hB : valsOf (wLenFields rc g) (lower n) = [] :=
+    valsOf_eq_nil_of_not_mem fun h => hm (managed_of_own_name (Or.inr (wLenFields_names rc g _ h)))
   rw [hA, hB, List.nil_append, List.nil_append, wRest_eq]
   have hsub : ((pipeHeader rc g).filter fun e => notExcluded e.1).Sublist (pipeHeader rc g) :=
     List.filter_sublist
@@ -142,24 +152,27 @@ theorem valsOf_writeFull (hc : CanonKeys (pipeHeader rc g)) (hn : NodupKeys (pip
       (fun h => hm (by rw [h]; decide))
   rw [if_pos hne]
 
-/-- a token name the head writer emits is a key of the map -/
+/-- a token name the head writer emits is `trailer` or a key of the map -/
 theorem name_writeHO (hc : CanonKeys (pipeHeader rc g)) {n : Bytes} (ht : n.all isTokenByte = true)
-    (hm : lower n ∈ outNames (writeHO rc g)) : ((pipeHeader rc g).lookup (canonicalKey n)).isSome = true := by
+    (hm : lower n ∈ outNames (writeHO rc g)) :
+    lower n ∈ managedNames ∨ ((pipeHeader rc g).lookup (canonicalKey n)).isSome = true := by
   obtain ⟨e, he, hk⟩ := List.mem_map.mp hm
-  have := mem_names_mergeFields (fs := lowerFields (pipeHeader rc g)) he
-  rw [hk] at this
-  exact mem_lowerFields_names hc ht this
+  have := mem_names_mergeFields (fs := lowerFields (pipeHeader rc g) ++ hoTrailerLine g) he
+  rw [hk, List.map_append, List.mem_append] at this
+  rcases this with h | h
+  · exact Or.inr (mem_lowerFields_names hc ht h)
+  · exact Or.inl (managed_of_own_name (Or.inr (Or.inr (Or.inl (hoTrailerLine_names g _ h)))))
 
 /-- a token name `Response.Write` emits is one of its own or a key of the map -/
 theorem name_writeFull (hc : CanonKeys (pipeHeader rc g)) {n : Bytes} (ht : n.all isTokenByte = true)
     (hm : lower n ∈ outNames (writeFull rc g)) :
     lower n ∈ managedNames ∨ ((pipeHeader rc g).lookup (canonicalKey n)).isSome = true := by
   obtain ⟨e, he, hk⟩ := List.mem_map.mp hm
-  have hmem := mem_names_mergeFields (fs := wConnLine rc g ++ wLenFields g ++ wRest rc g) he
+  have hmem := mem_names_mergeFields (fs := wConnLine rc g ++ wLenFields rc g ++ wRest rc g) he
   rw [hk, List.map_append, List.map_append, List.mem_append, List.mem_append] at hmem
   rcases hmem with (h | h) | h
   · exact Or.inl (managed_of_own_name (Or.inl (wConnLine_names rc g _ h)))
-  · exact Or.inl (managed_of_own_name (Or.inr (wLenFields_names g _ h)))
+  · exact Or.inl (managed_of_own_name (Or.inr (wLenFields_names rc g _ h)))
   · right
     rw [wRest_eq] at h
     have hsub : ((pipeHeader rc g).filter fun e => notExcluded e.1).Sublist (pipeHeader rc g) :=
@@ -298,7 +311,7 @@ theorem end_to_end_preserved {rc : ReqCtx} {o : OriginResp} {r : ClientResp} (hr
   obtain ⟨hc, hn⟩ := pipeHeader_canon_nodup (rulesOK_nil hrules) ok.canon ok.nodup
   rw [outValues_eq, ← h0_lookup_token o ht]
   rcases hcase with ⟨hho, rfl⟩ | ⟨hho, rfl⟩
-  · rw [valsOf_writeHO hc hn ht, ok.pipe_lookup_e2e hrules hs hm hnom]
+  · rw [valsOf_writeHO hc hn ht (fun h' => hm (by rw [h']; decide)), ok.pipe_lookup_e2e hrules hs hm hnom]
     intro hu
     have := (ok.gz_facts hu).2.2
     rw [← ok.status, hho] at this
@@ -337,12 +350,16 @@ theorem names_token {rc : ReqCtx} {o : OriginResp} {r : ClientResp} (hwf : Origi
   intro m hm
   obtain ⟨e, he, rfl⟩ := List.mem_map.mp hm
   rcases hcase with ⟨_, rfl⟩ | ⟨_, rfl⟩
-  · exact hlow _ ht _ (mem_names_mergeFields (fs := lowerFields (pipeHeader rc g)) he)
-  · have hmem := mem_names_mergeFields (fs := wConnLine rc g ++ wLenFields g ++ wRest rc g) he
+  · have hmem := mem_names_mergeFields (fs := lowerFields (pipeHeader rc g) ++ hoTrailerLine g) he
+    rw [List.map_append, List.mem_append] at hmem
+    rcases hmem with h1 | h1
+    · exact hlow _ ht _ h1
+    · rw [hoTrailerLine_names g _ h1]; decide
+  · have hmem := mem_names_mergeFields (fs := wConnLine rc g ++ wLenFields rc g ++ wRest rc g) he
     rw [List.map_append, List.map_append, List.mem_append, List.mem_append] at hmem
     rcases hmem with (h1 | h1) | h1
     · rw [wConnLine_names rc g _ h1]; decide
-    · rcases wLenFields_names g _ h1 with h2 | h2 | h2 <;> rw [h2] <;> decide
+    · rcases wLenFields_names rc g _ h1 with h2 | h2 | h2 <;> rw [h2] <;> decide
     · rw [wRest_eq] at h1
       exact hlow _ (ht.sublist List.filter_sublist) _ h1
 
@@ -402,7 +419,7 @@ theorem name_on_wire {rc : ReqCtx} {o : OriginResp} {r : ClientResp} (hr : Rules
   obtain ⟨hc, _⟩ := pipeHeader_canon_nodup hr ok.canon ok.nodup
   refine ⟨g, hread, ?_⟩
   rcases hcase with ⟨_, rfl⟩ | ⟨_, rfl⟩
-  · exact Or.inr (name_writeHO hc ht hm)
+  · exact name_writeHO hc ht hm
   · exact name_writeFull hc ht hm
 
 /-- C (static part): the hop-by-hop fields of RFC 7230 §6.1 never reach the client -/
@@ -535,14 +552,17 @@ theorem gunzip_drops {rc : ReqCtx} {o : OriginResp} {r : ClientResp} (hrules : r
     · -- Content-Length: not generated (unknown length), and the map's own key is never written
       intro hmem
       obtain ⟨e, he, hk⟩ := List.mem_map.mp hmem
-      have hmem2 := mem_names_mergeFields (fs := wConnLine rc g ++ wLenFields g ++ wRest rc g) he
+      have hmem2 := mem_names_mergeFields (fs := wConnLine rc g ++ wLenFields rc g ++ wRest rc g) he
       rw [hk, List.map_append, List.map_append, List.mem_append, List.mem_append] at hmem2
       rcases hmem2 with (h1 | h1) | h1
       · exact absurd (wConnLine_names rc g _ h1) (by decide)
-      · have hlen : g.contentLength = -1 := by
+      · have hlen : wLen rc g = -1 := by
           have := ok.contentLength_full (by rw [← ok.status]; exact hho)
           rw [hu] at this
-          simpa using this
+          have hg : g.contentLength = -1 := by simpa using this
+          unfold wLen
+          rw [frameForClient_full hho, hg]
+          exact frameCore_len_unknown ..
         unfold wLenFields at h1
         split at h1
         · split at h1
